@@ -858,7 +858,13 @@ def tick : Nat → Nat → M Unit
   | fuel + 1, c => do
     let cc ← getComp c
     if !cc.tasks.isEmpty then
-      taskLoop fuel c cc.tasks
+      -- the ticking thread counts as the flushing thread while tasks run
+      let old := cc.flushing
+      modComp c fun x => { x with flushing := true }
+      tryCatch (taskLoop fuel c cc.tasks) fun ex => do
+        modComp c fun x => { x with flushing := old }
+        throw ex
+      modComp c fun x => { x with flushing := old }
     let cc ← getComp c
     if cc.running then
       -- loop overhead: every iteration of a running loop takes one clock tick
